@@ -180,8 +180,9 @@ func (in *IsoInst) Apply(call *tla.Value) any {
 		if in.open() > 0 {
 			wait = BlockWait
 		}
+		mode := call.F("k").S
 		go func() {
-			x.txn, x.err = Begin(in.store)
+			x.txn, x.err = BeginMode(in.store, mode)
 			close(x.ready)
 			for f := range x.cmds {
 				if f == nil {
